@@ -10,6 +10,7 @@ for d in sorted(os.listdir(os.path.join(SRC, "confirm"))):
     r = json.load(open(rp))
     pid, m = d.split("-")
     src = os.path.join(SRC, pid, m)
+    pid = pid.rstrip("b")  # second-round directories are named C02b, C09b
     log = open(os.path.join(SRC, "confirm", d, "suite_patched.log"), errors="replace").read()
     # every "test result: FAILED" must belong to the demo target
     failed_blocks = re.findall(r"Running (?:unittests )?(\S+).*?\n(?:.*\n)*?test result: (ok|FAILED)", log)
@@ -33,7 +34,7 @@ for d in sorted(os.listdir(os.path.join(SRC, "confirm"))):
     meta_path = os.path.join(out, "meta.json")
     meta = json.load(open(meta_path)) if os.path.exists(meta_path) else {}
     meta.update({
-        "id": d, "property": pid, "author": "independent sub-agent given only the property text and a scratch worktree",
+        "id": d, "property": pid.rstrip("b"), "author": "independent sub-agent given only the property text and a scratch worktree",
         "summary": notes.strip().splitlines()[0][:300] if notes.strip() else "",
         "confirmed_by_me": {
             "worktree": "scratch git worktree of /repo at the hooks commit (removed afterwards)",
